@@ -1320,9 +1320,13 @@ func (a *Analysis) computeGlobalFacts() *globalFactsT {
 					}
 				}
 			}
-			// no other function assigns the variable
+			// no other function assigns the variable (an exported registrar nobody in the module calls – kept for
+			// applications, to be used during their start-up – is not a run-time writer here, as below)
 			for _, w2 := range writes {
 				if w2.g == w.g && w2.fn != fn {
+					if len(callersOf[w2.fn]) == 0 && w2.fn.Object() != nil && w2.fn.Object().Exported() && w2.what != "assign" {
+						continue
+					}
 					return false
 				}
 			}
